@@ -19,7 +19,7 @@ LEVEL = 'exploration'
 RULE = ('one case = one history against a fresh SQLite file: either 1-20 generated store operations (sync_individual of a '
         'new or already stored individual, mutation of a stored individual, sync_all, read-mode view) over 1-8 '
         'individuals with special float values / numpy scalars / nested custom data / references, or one complete run '
-        'of NSGA-II, eps-MOEA, OMOPSO, SMPSO, PSOGA, Sweep, ScipyOpt or NLopt with a store.  Non-trivial = at least one '
+        'of NSGA-II, eps-MOEA, OMOPSO, SMPSO, PSOGA, Sweep, ScipyOpt, NLopt, CMA-ES, CEM or Monte-Carlo with a store.  Non-trivial = at least one '
         'row was compared field by field through a read-mode view; distinct = hash of (family, operation kinds or '
         'algorithm configuration, number of rows, special-value classes used).')
 ASSUMPTIONS = [
@@ -267,7 +267,7 @@ def _store(D):
     return core.result(ctx, sim)
 
 
-RUN_ALGOS = ('nsga2', 'epsmoea', 'omopso', 'smpso', 'psoga', 'sweep', 'scipy', 'nlopt')
+RUN_ALGOS = ('nsga2', 'epsmoea', 'omopso', 'smpso', 'psoga', 'sweep', 'scipy', 'nlopt', 'cmaes', 'cem', 'montecarlo')
 
 
 def _run(D):
@@ -294,6 +294,18 @@ def _run(D):
                 gen = ops.RandomGenerator(p.parameters)
                 gen.init(N)
                 alg = SweepAlgorithm(p, generator=gen)
+            elif kind in ('cmaes', 'cem', 'montecarlo'):
+                # numpy-random driven samplers (np.random is seeded per run by begin_run)
+                if kind == 'cmaes':
+                    from artap.algorithm_cmaes import CMA_ES as cls
+                elif kind == 'cem':
+                    from artap.algorithm_cem import CEM as cls
+                else:
+                    from artap.algorithm_monte_carlo import Monte_Carlo as cls
+                alg = cls(p)
+                alg.options['max_population_size'] = max(N, 4)
+                alg.options['max_population_number'] = 1 + (G % 2)
+                alg.options['verbose_level'] = 0
             elif kind == 'scipy':
                 from artap.algorithm_scipy import ScipyOpt
                 alg = ScipyOpt(p)
